@@ -75,6 +75,8 @@ def items(tier, seed):
             if tier == "quick" and (ni + mi) % 4:
                 continue
             its.append({"deep": True, "inputs": list(inputs), "output": output, "name": name, "init": ("caterpillar" if (ni + mi) % 2 else "greedy"), "sizes": 0, "slice_mode": mode, "tier": tier})
+            if tier != "quick" or (ni + mi) % 8 == 1:
+                its.append({"deep": True, "inputs": list(inputs), "output": output, "name": name, "init": ("caterpillar" if (ni + mi) % 2 else "greedy"), "sizes": 1, "slice_mode": mode, "tier": tier})
     return its
 
 
